@@ -902,6 +902,10 @@ func (ctx Ctx) basicLiteral(e *ast.BasicLit) coq.Expr {
 		if strings.ContainsRune(s, '"') {
 			ctx.unsupported(e, "string literals with quotes")
 		}
+		if strings.ContainsRune(s, '\n') {
+			// the printer would indent the continuation lines, changing the value
+			ctx.unsupported(e, "string literals with newlines")
+		}
 		return coq.StringLiteral{Value: s}
 	}
 	if e.Kind == token.INT {
